@@ -10,15 +10,16 @@ from typing import Optional, Union, List, Dict
 from dateutil.parser import parse
 
 
-def _get_story_offsets(all_stories: Optional[List[Element]]) -> Optional[Dict[str, float]]:
+def _get_story_offsets(all_stories: Optional[List[Element]]) -> Optional[Dict[Element, float]]:
     """
-    Create a dict of {story_id: story_offset}
+    Create a dict of {story_tag: story_offset}, keyed by the story element itself
+    as story IDs are not necessarily unique within a running order
     """
     story_offsets = {}
     if all_stories:
         t = 0
         for story in all_stories:
-            story_offsets[story.find('storyID').text] = t
+            story_offsets[story] = t
             t += _get_story_duration(story) or 0
         return story_offsets
 
@@ -262,7 +263,7 @@ class Story(MosElement):
         The time offset of the story in seconds (if available in the XML)
         """
         try:
-            return self._story_offsets.get(self.id)
+            return self._story_offsets.get(self.xml)
         except AttributeError:
             return
 
